@@ -147,6 +147,10 @@ def gen(tier, rng, shard, nshards):
             yield {"mode": "routine", "routine": S.pick(rng, ROUTINES), "seed": S.seed(rng), "key": int(rng.integers(0, 2**31 - 1)),
                    "n": int(S.pick(rng, [3, 5, 8, 12, 30])), "k": int(S.pick(rng, [0, 0, 1, -1, 2, -2])), "rand": S.pick(rng, ["normal", "rademacher"]),
                    "max_iters": int(S.pick(rng, [1, 2, 5, 20])), "tol": float(S.pick(rng, [0.5, 0.05, 2e-3]))}
+        elif r < 0.52:
+            yield {"mode": "shared-alg-object", "kind": S.pick(rng, ["Kronecker", "Kronecker", "Kronecker3", "BlockDiag", "Sum", "Generic"]), "seed": S.seed(rng),
+                   "key": int(rng.integers(0, 2**31 - 1)), "n": int(S.pick(rng, [2, 3, 4])), "n2": int(S.pick(rng, [2, 3])), "fn": S.pick(rng, ["diag", "trace"]),
+                   "rand": S.pick(rng, ["normal", "rademacher"]), "max_iters": int(S.pick(rng, [1, 2, 5]))}
         elif r < 0.7:
             # histories of user draws, reseeds and cola calls
             L = int(rng.integers(2, 9))
@@ -254,7 +258,51 @@ def run_case(ctx, case):
         return run_history(ctx, case)
     if mode == "hutch-formula":
         return run_formula(ctx, case)
+    if mode == "shared-alg-object":
+        return run_shared(ctx, case)
     return run_bias(ctx, case)
+
+
+def run_shared(ctx, case):
+    """One caller-held Hutch object used for several estimates: the same object, operator and key give the same estimate
+    every time, and the object still says what the caller wrote into it."""
+    from cola import linalg as L
+    n1, n2 = case["n"], int(case["n2"])
+    M1, M2 = make_operator(n1, case["seed"]), make_operator(n2, case["seed"] + 1)
+    ctx.begin_case(case, sig=f"shared|{case['kind']}|{n1}x{n2}|{case['fn']}|{case['rand']}", nontrivial=True)
+    mf = lambda M: cola.ops.LinearOperator(M.dtype, M.shape, matmat=lambda X, M=M: M @ X)  # noqa (matrix-free: estimated, not read off)
+    kind = case["kind"]
+    if kind == "Kronecker":
+        A = cola.ops.Kronecker(mf(M1), mf(M2))
+    elif kind == "Kronecker3":
+        A = cola.ops.Kronecker(mf(M1), cola.ops.Dense(M2), mf(M1))
+    elif kind == "BlockDiag":
+        A = cola.ops.BlockDiag(mf(M1), mf(M2), multiplicities=[2, 1])
+    elif kind == "Sum":
+        A = mf(M1) + cola.ops.Diagonal(np.diag(M1).copy())
+    else:
+        A = mf(M1)
+    alg = L.Hutch(key=case["key"], max_iters=case["max_iters"], tol=0.05, rand=case["rand"])
+    said = dict(alg.__dict__)
+    fn = (lambda: L.diag(A, 0, alg)) if case["fn"] == "diag" else (lambda: L.trace(A, alg))
+    preds = {"kind": kind, "fn": case["fn"]}
+    before = global_digest()
+    out1 = ctx.call(fn)
+    out2 = ctx.call(fn)
+    after = global_digest()
+    if is_err(out1) or is_err(out2):
+        ctx.check("returns", False, site="shared-alg-object", preds=preds, detail={"error": repr(out1 if is_err(out1) else out2)})
+        return
+    ctx.check("returns", True)
+    ctx.check("same-key-bit-identical", out_hash(out1) == out_hash(out2), site="shared-alg-object", preds=preds,
+              detail={"first": np.asarray(out1).ravel()[:4], "second": np.asarray(out2).ravel()[:4]})
+    now = dict(alg.__dict__)
+    ctx.check("algorithm-object-says-what-the-caller-wrote", now == said, site="shared-alg-object", preds=preds,
+              detail={"before": {k: repr(v) for k, v in said.items()}, "after": {k: repr(v) for k, v in now.items()}})
+    ctx.check("global-state-untouched", before == after, site="shared-alg-object", preds=preds, detail=None)
+    fresh = ctx.call(lambda: L.diag(A, 0, L.Hutch(**said)) if case["fn"] == "diag" else L.trace(A, L.Hutch(**said)))
+    if not is_err(fresh):
+        ctx.check("same-key-bit-identical", out_hash(fresh) == out_hash(out1), site="shared-alg-object", preds=dict(preds, against="fresh-object"), detail=None)
 
 
 def run_routine(ctx, case):
